@@ -105,7 +105,10 @@ def build_inputs(tier, rng, limit_depth):
         for d in ([limit_depth + 60] if nq else [limit_depth + 3, limit_depth + 60, 4 * limit_depth]):
             inputs.append({"id": "depth:%s@%d" % (dn, d), "sql": depth_driver(dn, d), "class": "limit:depth", "big": True})
     inputs.append({"id": "size+1", "gen": {"kind": "size", "n": 10485761}, "class": "limit:size"})
-    inputs.append({"id": "tokens+1", "gen": {"kind": "tokens", "n": 1000001}, "class": "limit:tokens"})
+    tk = {"id": "tokens+1", "gen": {"kind": "tokens", "n": 1000001}, "class": "limit:tokens"}
+    if nq:   # a million tokens through three entry points instead of nine (quick tier budget)
+        tk["only"] = ["Tokenizer.Tokenize", "Tokenizer.TokenizeContext", "gosqlx.Parse"]
+    inputs.append(tk)
     return inputs
 
 
